@@ -487,7 +487,11 @@ def compare(it, op, l, r):
         return res
     if t in (ast.Is, ast.IsNot):
         if isinstance(l, (Sym, SymSeq)) or isinstance(r, (Sym, SymSeq)):
-            # identity with None / singletons: a symbol is never None
+            # identity with None / singletons: a symbol is never None (unless it stands for a value of unknown class)
+            for x, y in ((l, r), (r, l)):
+                if isinstance(x, Sym) and isinstance(x.pyt, type) and getattr(x.pyt, "opaque_class", False) and y is None:
+                    t_ = z3.Function("is_none", x.term.sort(), z3.BoolSort())(x.term)
+                    return Sym(t_ if t is ast.Is else z3.Not(t_), bool)
             same = l is r
             return same if t is ast.Is else not same
         return _NATIVE[t](l, r)
